@@ -162,6 +162,9 @@ package keeper
 //@       && (forall i int :: 0 <= i && i <= MaxUint64 ==> Shard[i] == old(Shard[i]) && (has(Shard, i) <==> old(has(Shard, i))))
 //@       && (forall h int :: 0 <= h && h <= MaxUint64 ==> TimeoutOrder[h] == old(TimeoutOrder[h]) && (has(TimeoutOrder, h) <==> old(has(TimeoutOrder, h))))
 //@       && (forall a addr, d string :: bal(a, d) == old(bal(a, d)))
+//@   ensures [C13.timeout.nodangling] old(has(Order, orderId)) && old(Order[orderId].Status) == OrderCompleted
+//@       && old(forall j int :: 0 <= j && j < len(Order[orderId].Shards) ==> has(Shard, Order[orderId].Shards[j])) ==>
+//@       has(Order, orderId) && (forall j int :: 0 <= j && j < len(Order[orderId].Shards) ==> has(Shard, Order[orderId].Shards[j]))
 //@   ensures [C12.timeout.keepcompleted] [C05.timeout.keepcompleted] old(has(Order, orderId)) && old(Order[orderId].Status) == OrderCompleted ==> has(Order, orderId)
 //@   at NewDecCoinFromCoin assert [C12.timeout.reduce] [C05.timeout.reduce] has(Order, orderId) && Order[orderId].Status == OrderCompleted && order.Status == OrderCompleted
 //@   ensures [C12.timeout.progress] old(has(Order, orderId)) && old(Order[orderId].Timeout) >= 1 && H + old(Order[orderId].Timeout) <= MaxUint64
@@ -179,6 +182,9 @@ package keeper
 //@   loop L1 invariant [C12.timeout.stored] (forall i int :: 0 <= i && i < len(order.Shards) ==> has(Shard, order.Shards[i]) && Shard[order.Shards[i]].Status == ShardCompleted) ==> len(uncompletedShards) == 0 && timeoutCount == 0
 //@   loop L1 invariant [C13.timeout.listed] forall q int :: 0 <= q && q < len(timeoutShards) ==> has(Shard, timeoutShards[q].Id) && Shard[timeoutShards[q].Id] == timeoutShards[q]
 //@   loop L1 invariant [C13.timeout.listed] forall j int :: 0 <= j && j <= rangeindex && has(Shard, order.Shards[j]) ==> contains(completedShards, order.Shards[j]) || contains(uncompletedShards, order.Shards[j])
+//@   loop L1 invariant [C13.timeout.nodangling] (forall q int :: 0 <= q && q < len(completedShards) ==> old(has(Shard, completedShards[q])) && old(Shard[completedShards[q]].Status) == ShardCompleted)
+//@       && (forall r int :: 0 <= r && r < len(uncompletedShards) ==> old(has(Shard, uncompletedShards[r])) && old(Shard[uncompletedShards[r]].Status) != ShardCompleted)
+//@       && (forall i int :: 0 <= i && i <= MaxUint64 ==> Shard[i] == old(Shard[i]) && (has(Shard, i) <==> old(has(Shard, i))))
 //@   loop L1 decreases [C02.timeout.term] len(order.Shards) - rangeindex
 //@   loop L2 invariant -1 <= rangeindex
 //@   loop L2 invariant [C12.timeout.progress] forall q int :: 0 <= q && q < len(completedShards) && has(Shard, completedShards[q]) ==> Shard[completedShards[q]].Status == ShardCompleted
@@ -187,6 +193,7 @@ package keeper
 //@   loop L2 invariant [C12.timeout.stored] rangeindex < len(uncompletedShards)
 //@   loop L2 invariant [C12.timeout.stored] rangeindex == -1 ==> forall i int :: 0 <= i && i <= MaxUint64 ==> Shard[i] == entry(Shard[i]) && (has(Shard, i) <==> entry(has(Shard, i)))
 //@   loop L2 invariant [C13.timeout.listed] forall q int :: 0 <= q && q <= rangeindex ==> !has(Shard, uncompletedShards[q])
+//@   loop L2 invariant [C13.timeout.nodangling] forall q int :: 0 <= q && q < len(completedShards) ==> has(Shard, completedShards[q])
 //@   loop L2 decreases [C02.timeout.term] len(uncompletedShards) - rangeindex
 //@   loop L3 invariant -1 <= rangeindex && rangeindex < len(order.Shards)
 //@   loop L3 invariant forall j int :: 0 <= j && j <= rangeindex ==> !has(Shard, order.Shards[j])
@@ -198,6 +205,7 @@ package keeper
 //@   loop L4 invariant [C13.timeout.listed] rangeindex < len(uncompletedShards) && (forall q int :: 0 <= q && q <= rangeindex ==> !has(Shard, uncompletedShards[q]))
 //@   loop L4 invariant [C13.timeout.listed] forall i int :: 0 <= i && i <= MaxUint64 && has(Shard, i) ==> entry(has(Shard, i)) && Shard[i] == entry(Shard[i])
 //@   loop L4 invariant [C13.timeout.listed] Order[orderId0] == old(Order[orderId0]) && has(Order, orderId0)
+//@   loop L4 invariant [C13.timeout.nodangling] forall q int :: 0 <= q && q < len(completedShards) ==> has(Shard, completedShards[q])
 //@   loop L4 decreases [C02.timeout.term] len(uncompletedShards) - rangeindex
 //@   loop L5 frameexcept order
 //@   loop L5 invariant -1 <= rangeindex && rangeindex < len(randSp)
@@ -210,6 +218,10 @@ package keeper
 //@   loop L5 invariant [C13.timeout.listed] order.Id == orderId0
 //@   loop L5 invariant [C13.timeout.listed] forall q int :: rangeindex < q && q < len(timeoutShards) ==> has(Shard, timeoutShards[q].Id) && Shard[timeoutShards[q].Id].OrderId == timeoutShards[q].OrderId
 //@       && timeoutShards[q].Id < old(effShardCount(get(ShardCount)))
+//@   loop L5 invariant [C13.timeout.nodangling] old(forall j int :: 0 <= j && j < len(Order[orderId0].Shards) ==> has(Shard, Order[orderId0].Shards[j])) ==>
+//@       forall j int :: 0 <= j && j < len(order.Shards) ==> has(Shard, order.Shards[j])
+//@   loop L5 invariant [C13.timeout.nodangling] forall i int :: 0 <= i && i <= MaxUint64 && entry(has(Shard, i)) ==> has(Shard, i)
+//@   loop L5 invariant [C12.timeout.marked] [C15.timeout.marked] forall q int :: 0 <= q && q <= rangeindex && q < len(timeoutShards) ==> has(Shard, timeoutShards[q].Id) && Shard[timeoutShards[q].Id].Status == ShardTimeout
 //@   loop L5 decreases [C02.timeout.term] len(randSp) - rangeindex
 
 // providers that hold the shards of a model's latest order (reused by a force-push)
